@@ -211,7 +211,7 @@ def stmtRows (o : Opts) : Nat → PStmt → Str → Option Str → Str → List 
       let subId := if many then stmtId ++ '.' :: natStr (ri + 1) else stmtId
       let row0 : Row := [(kID, subId)]
       let row0 := match o.ann, stmtAnn with
-        | true, some a => row0.set kStmtAnn a
+        | true, some a => row0.set kStmtAnn (adjust o.gs a)
         | _, _ => row0
       let cstep := fun (st : Row × List Nested × List Str) (ci : Nat) =>
         let (row, reg, links) := st
